@@ -563,4 +563,5 @@ func runC20(r *Run) {
 	c20JSON(r)
 	c20Misc(r)
 	c20Updates(r)
+	c20Forms(r)
 }
